@@ -319,6 +319,13 @@ fn cases(quick: bool) -> Vec<Case> {
             let cell = 1usize << 24;
             v.push(Case { label: format!("text row of {} cells of 2^24 bytes each ({} bytes in one message)", n, n * (cell + 9)), shape: Shape::TextCells(vec![cell; n]), msg_len: n * (cell + 9), write_cap: *cap, fault: None, req_seq: 0 });
         }
+        // a large ERR message answering a request whose id makes the reply straddle the wrap of the
+        // sequence counter
+        if *cap == usize::MAX {
+            for rs in if quick { vec![253u8, 254] } else { vec![250u8, 251, 252, 253, 254, 255] } {
+                v.push(Case { label: format!("ERR packet of 2^24-1 bytes, request sequence id {}", rs), shape: Shape::ErrMsg(MAXP - 9), msg_len: MAXP, write_cap: *cap, fault: None, req_seq: rs });
+            }
+        }
         // large ERR message and column name
         for d in if quick { vec![0i64] } else { vec![-1i64, 0, 1] } {
             let l = (MAXP as i64 + d) as usize;
